@@ -30,6 +30,9 @@ def LOC(*tags):
     return {"only": list(tags) + ["range", "inv:range", "path", "let"], "nlabs": False, "prefer": "recfun"}
 
 
+UNF = {"only": ["range", "inv:range", "let"]}
+
+
 def LOC0(*tags):
     return {"only": list(tags) + ["range", "inv:range", "path", "let"]}
 
@@ -65,7 +68,14 @@ def make(name, valid, params, requires):
                      ("let", "GB", "s1(DA, DV, 1, N1 - 1) / c1(DV, 1, N1 - 1)")],
         loops={0: {"var": "i", "invariant": inv, "by": {
             "pres/Sx": LOC0("inv:Sx"), "pres/Sy": LOC0("inv:Sy"), "pres/pairs": LOC0("inv:pairs", "inv:Sx", "inv:Sy"),
-            "pres/bridge_cov": LOC("inv:bridge_cov"), "pres/bridge_vx": LOC("inv:bridge_vx"), "pres/bridge_vy": LOC("inv:bridge_vy")}}},
+            "pres/bridge_cov": {"backend": "ratfun", "rules": ["inv:bridge_cov", "have:unfold_cov"]},
+            "pres/bridge_vx": {"backend": "ratfun", "rules": ["inv:bridge_vx", "have:unfold_vx"]},
+            "pres/bridge_vy": {"backend": "ratfun", "rules": ["inv:bridge_vy", "have:unfold_vy"]}},
+            "head_hints": [
+                ("have", "unfold_vx", "varmf(DA, DV, 0, GA, i + 1) == varmf(DA, DV, 0, GA, i) + (ite(DV[i], DA[i], GA) - GA) * (ite(DV[i], DA[i], GA) - GA)", UNF),
+                ("have", "unfold_vy", "varmf(DA, DV, 1, GB, i + 1) == varmf(DA, DV, 1, GB, i) + (ite(DV[i + 1], DA[i + 1], GB) - GB) * (ite(DV[i + 1], DA[i + 1], GB) - GB)", UNF),
+                ("have", "unfold_cov", "covmf(DA, DV, GA, GB, i + 1) == covmf(DA, DV, GA, GB, i) + (ite(DV[i], DA[i], GA) - GA) * (ite(DV[i + 1], DA[i + 1], GB) - GB)", UNF),
+            ]}},
         exit_hints=[],
         anchors={
             "after: mean_Y =": [
